@@ -192,7 +192,8 @@ def evaluate(case, obs):
                                                                                       "generation": a.body["generation"]})
             if end:
                 later_sub = any(e["t"] <= s["t"] <= end[0]["t"] for s in subs_ev)
-                if sorted(end[0]["after"]) != sent and not later_sub:
+                stopping = any(x["kind"] == "stop_call" and x["t"] <= end[0]["t"] for x in evs)
+                if sorted(end[0]["after"]) != sent and not later_sub and not stopping:
                     out.fail("adopts_sent", "assignment_after_callback_differs", {"member": tag, "sent": sent, "assignment()": end[0]["after"]})
     # ---- barrier: all participants' revoked-end before any participant's assigned-begin of that generation
     join_by_member = {}
@@ -239,6 +240,7 @@ def evaluate(case, obs):
     # ---- revoked_silent / no_stale_data
     delivery_checks(case, obs, out)
     c06.group_checks(case, obs, out)
+    c06.generation_completeness(case, obs, out)
     # ---- non-triviality
     subs = [tuple(m["topics"]) if not isinstance(m["topics"], str) else m["topics"] for m in case["members"]]
     differ = len(set(map(str, subs))) > 1
